@@ -114,6 +114,11 @@ EffectMatches(ev, o, pre, post) ==
     CASE ev.op = "Mk" ->
            /\ Proj(post).store = o.st.store
            /\ post.colls[ev.c].kind = ev.kind
+           \* C15: every property the creation request reports as set reads back
+           /\ \A k \in DOMAIN ev.mprops :
+                 ev.mprops[k].pst = 200 =>
+                    /\ ev.mprops[k].p \in DOMAIN post.colls[ev.c].props
+                    /\ post.colls[ev.c].props[ev.mprops[k].p] = ev.mprops[k].v
            /\ \A c \in Colls(pre) : post.colls[c].props = pre.colls[c].props
            /\ KindsOK(pre, post)
       [] ev.op = "Proppatch" /\ ~ev.set ->
@@ -152,6 +157,7 @@ JudgeEffect(ev, pre, post, i) ==
         ELSE IF same THEN
             (IF ev.resp.cond = "no-uid-conflict"
                THEN Viol("C06", [w |-> "spurious-uid-refusal", op |-> ev.op], i)
+             ELSE IF ev.op = "Proppatch" THEN {}     \* a property may always be refused
              ELSE IF ev.op \in {"Put", "Delete"} /\ ev.resp.cls = "precond" /\ ev.resp.cond = ""
                \* a bare 412 claims that a condition failed - but every condition sent holds
                THEN Viol("C03", [w |-> "precondition-failed-although-conditions-hold", op |-> ev.op], i)
